@@ -191,6 +191,38 @@ def restrict_phase(path, out, keep_blocks, statements_fn):
     return out
 
 
+def strip_ps(path, out, statements_fn):
+    """copy of a phased VCF in which the phase statements of S1 are written as `a|b` genotypes without a PS field
+    (FORMAT GT only; an HP-encoded state is re-encoded)"""
+    p = synth.parse_vcf(path)
+    si = p["samples"].index("S1")
+    lines = [l for l in p["header"] if not l.startswith("##FORMAT=<ID=PS") and not l.startswith("##FORMAT=<ID=HP")]
+    lines.append("\t".join(["#CHROM", "POS", "ID", "REF", "ALT", "QUAL", "FILTER", "INFO", "FORMAT"] + p["samples"]))
+    for rec in p["records"]:
+        t = rec["line"].split("\t")
+        cols = []
+        for sj in range(len(p["samples"])):
+            call = rec["calls"][sj]
+            gt = call.get("GT", ".")
+            if sj == si:
+                sts = statements_fn(call)
+                if sts and sts[0][2] is not None:
+                    gt = "|".join(map(str, sts[0][2]))
+                else:
+                    g, _ = synth.gt_parse(gt)
+                    gt = "/".join("." if a is None else str(a) for a in g) if g else gt
+            else:
+                g, _ = synth.gt_parse(gt)
+                gt = "/".join("." if a is None else str(a) for a in g) if g else gt
+            cols.append(gt)
+        t[8] = "GT"
+        t[9:] = cols
+        lines.append("\t".join(t))
+    with open(out, "w") as f:
+        f.write("\n".join(lines) + "\n")
+    return out
+
+
 def run_op(ctx, d, state_path, op, tag_i):
     """execute one operation; returns (output path or None, traces, error)"""
     out = os.path.join(d, f"s{tag_i}.vcf")
@@ -207,7 +239,9 @@ def run_op(ctx, d, state_path, op, tag_i):
     kw = dict(tag=tag, samples=["S1"])
     if op in ("Ps", "Hs"):
         kw["only_snvs"] = True
-    if op.startswith("V2"):
+    if op.startswith("V0"):
+        kw["phase_inputs"] = [ctx["vin0"]]
+    elif op.startswith("V2"):
         kw["phase_inputs"] = list(ctx["vin2"])
     elif op.startswith("V"):
         kw["phase_inputs"] = [ctx["vin"]]
@@ -369,6 +403,11 @@ def judge(sc):
                             restrict_phase(path, os.path.join(d, "vin_b.vcf"), set(blocks) - {first}, statements),
                         ]
                         ops3 += ["V2PS"]
+                    if len(blocks) == 1 and all((not sts) or (len(sts) == 1 and sts[0][1] in blocks) for sts in stx.values()):
+                        # the single phase set handed over the way chromosome-wide phasers write it: `a|b` without any
+                        # PS field (read as one set by whatshap)
+                        ctx["vin0"] = strip_ps(path, os.path.join(d, "vin_nops.vcf"), statements)
+                        ops3 += ["V0PS", "V0HP"]
                     for op in ops3:
                         y3, tr3, err3 = apply(ukeep, op, tuple(hist) + ("U", op))
                         if err3:
